@@ -286,6 +286,8 @@ row('C11', EVENTS, 'video-extension-list', _video_extensions)
 EDITOR = '<section::editor::Editor as decode::DecodeBeatmap>::parse_editor'
 SKIPPING = {'filter_map', 'flat_map', 'flatten', 'filter'}
 STOPPING = {'map_while', 'take_while', 'scan', 'try_fold', 'try_for_each', 'skip_while', 'take', 'skip', 'step_by'}
+REORDERING = {'sort', 'sort_unstable', 'sort_by', 'sort_by_key', 'sort_unstable_by', 'sort_unstable_by_key', 'dedup', 'dedup_by',
+              'dedup_by_key', 'reverse', 'rev', 'retain', 'retain_mut', 'truncate', 'pop', 'remove', 'swap_remove', 'drain'}
 
 
 def _desugared_loop_exit(n, anc):
@@ -334,6 +336,11 @@ def _bookmarks_skip_invalid(ctx, hfn):
     H.walk(arms[0], v2)
     for nm in sorted(names & STOPPING):
         stops.append(('`%s`' % nm, None))
+    tys = repr(arms[0])
+    norm = sorted(names & REORDERING) + [t for t in ('BTreeSet', 'HashSet', 'BTreeMap') if t in tys]
+    if norm:
+        return False, ('the bookmark list is normalised while decoding (%s): a list that is not sorted / has repeated values '
+                       'does not come back as it was written') % ', '.join(norm), arms[0].get('ln')
     if stops:
         return False, ('the bookmark list is cut at the first invalid entry (%s): later valid bookmarks are lost'
                        % ', '.join(sorted({x[0] for x in stops}))), stops[0][1]
@@ -342,6 +349,41 @@ def _bookmarks_skip_invalid(ctx, hfn):
 
 _bookmarks_skip_invalid.positive = True
 row('C11', EDITOR, 'bookmarks:invalid-entries-skipped', _bookmarks_skip_invalid)
+def _mode_literals(ctx, hfn):
+    """`Mode` accepts exactly the texts "0".."3"; anything else (other numbers, "03", "+2") is an error
+    and leaves the field untouched"""
+    from kt import _pat_lits
+    got = {}
+    parses = find(ctx, hfn['body'], OR(M('parse', ANY()), C('ParseNumber>::parse', ANY()), M('parse_num', ANY())))
+
+    def visit(n, anc):
+        if n.get('k') == 'match' and not n.get('src', '').startswith('TryDesugar'):
+            for a in n['arms']:
+                lits = []
+                _pat_lits(a['pat'], lits)
+                names = []
+
+                def v2(x, anc2):
+                    if x.get('k') == 'path' and x.get('def', '').startswith('section::general::GameMode::'):
+                        names.append(x['name'])
+                H.walk(a['body'], v2)
+                for l in lits:
+                    got[l] = names[-1] if names else None
+    H.walk(hfn['body'], visit)
+    exp = {'0': 'Osu', '1': 'Taiko', '2': 'Catch', '3': 'Mania'}
+    ok = got == exp and not parses
+    return ok, '' if ok else ('game mode text is converted by %s; the format accepts exactly "0", "1", "2", "3"'
+                              % ('a numeric parse' if parses else got)), None
+
+
+row('C11', '<section::general::GameMode as std::str::FromStr>::from_str', 'mode:exact-literals', _mode_literals)
+CKEY = '<section::colors::decode::ColorsKey as std::str::FromStr>::from_str'
+row('C11', CKEY, 'combo-key:prefix-only',
+    _contains(IF(M('starts_with', L('s'), K('Combo')), CONTAINS(P('ColorsKey::Combo'))),
+              'every key starting with `Combo` is a combo colour (the index is ignored)'))
+row('C11', CKEY, 'combo-key:no-index-parse',
+    _not_contains(OR(M('parse', ANY()), M('parse_num', ANY()), M('strip_prefix', ANY(), ANY())),
+                  'the text after `Combo` decides whether the line is a combo colour: `Combo`, `ComboX`, `Combo 2` must still be one'))
 row('C11', None, 'const:MAX_PARSE_VALUE', _const('util::parse_number::MAX_PARSE_VALUE', 2147483647))
 for t in ('i32', 'f32', 'f64'):
     row('C11', '<%s as util::parse_number::ParseNumber>::parse' % t, 'limit:' + t,
@@ -567,7 +609,7 @@ for nm, v in (('CIRCLE', 1), ('SLIDER', 2), ('NEW_COMBO', 4), ('SPINNER', 8), ('
     row('C14', None, 'const:' + nm, _const(HOT + nm, v))
 row('C14', None, 'const:MAX_COORDINATE_VALUE', _const('section::hit_objects::decode::MAX_COORDINATE_VALUE', 131072))
 row('C14', HITOBJ, 'combo_offset-shift',
-    _let('combo_offset', BIN('Shr', BIN('BitAnd', L('hit_object_type'), K(0x70)), K(4))))
+    _let('combo_offset', BIN('Shr', BIN('BitAnd', L('hit_object_type'), K(0x70)), K(4)), every=False))
 COORD = CAST(CAST(TRY(M('parse_with_limits', ANY(), K(131072))), 'i32'), 'f32')
 row('C14', HITOBJ, 'pos.x', _struct_init('util::pos::Pos', 'x', COORD))
 row('C14', HITOBJ, 'pos.y', _struct_init('util::pos::Pos', 'y', COORD))
@@ -579,7 +621,7 @@ row('C14', 'section::hit_objects::decode::HitObjectsState::convert_points::read_
 row('C14', HITOBJ, 'length>=0',
     _let('new_len', M('max', TRY(M('parse_with_limits', ANY(), K(131072))), K(0.0))))
 row('C14', HITOBJ, 'length-epsilon',
-    _contains(IF(BIN('Ge', M('abs', L('new_len')), ANY()), ANY()), 'zero length means natural length'))
+    _contains(BIN('Ge', M('abs', L('new_len')), K(2.220446049250313e-16)), 'zero length means natural length'))
 row('C14', HITOBJ, 'repeat-cap',
     _contains(IF(BIN('Gt', L('repeat_count'), K(9000)), ANY()), 'repeat counts above 9000 are rejected'))
 row('C14', HITOBJ, 'repeat_count-1',
@@ -595,8 +637,12 @@ def _filled(elem):
 row('C14', HITOBJ, 'node-default:sound-type', _let('node_sound_types', _filled(L('sound_type'))))
 row('C14', HITOBJ, 'node-default:bank',
     _let('node_bank_infos', _filled(OR(M('clone', L('bank_info')), L('bank_info')))))
+_GE2 = BIN('Ge', L('custom_sample_bank'), K(2))
+row('C14', 'section::hit_objects::hit_samples::HitSampleInfo::new', 'suffix-only-from-custom-index>=2',
+    _struct_init('section::hit_objects::hit_samples::HitSampleInfo', 'suffix',
+                 OR(M('then', _GE2, ANY()), M('then_some', _GE2, ANY()), IF(_GE2, ANY(), ANY()))))
 row('C14', HITOBJ, 'spinner-duration>=0',
-    _let('duration', M('max', BIN('Sub', L('duration'), L('start_time')), K(0.0)), every=False))
+    _let('duration', M('max', BIN('Sub', ANY(), L('start_time')), K(0.0)), every=False))
 row('C14', HITOBJ, 'hold-end>=start',
     _all_assign([], M('max', L('start_time'), L('new_end_time')), base='end_time'))
 row('C14', HITOBJ, 'hold-duration',
@@ -665,7 +711,7 @@ row('C15', HO_FROM, 'velocity',
                                   C('get_precision_adjusted_beat_len', L('slider_velocity'), L('beat_len'), ANY())),
                 base='slider'))
 row('C15', HO_FROM, 'leniency:object',
-    _contains(CALLARG('sample_point_at', BIN('Add', L('end_time'), K(5.0))), 'object samples looked up 5 ms after the end'))
+    _contains(CALLARG('sample_point', BIN('Add', L('end_time'), K(5.0))), 'object samples looked up 5 ms after the end'))
 row('C15', HO_FROM, 'leniency:nodes',
     _let('time', BIN('Add', ANY(), K(5.0))))
 row('C15', HO_FROM, 'default-beat-len',
@@ -682,11 +728,114 @@ row('C15', 'section::hit_objects::slider::HitObjectSlider::duration_with_bufs', 
 row('C15', 'section::hit_objects::slider::HitObjectSlider::span_count', 'span_count',
     _ret(BIN('Add', F(L('self'), 'repeat_count'), K(1))))
 
+PPB = 'section::hit_objects::decode::HitObjectsState::post_process_breaks'
+
+
+def _break_forces_combo(ctx, hfn):
+    """every break that ended before an object forces a new combo on it: the flag that is or-ed into
+    `new_combo` only ever holds the constants true/false, `true` is guarded by nothing but the
+    "break ended before the object starts" test and the cursor bounds, and it reaches circle, slider
+    and spinner"""
+    flags = set()
+    applied = 0
+
+    def v1(n, anc):
+        nonlocal applied
+        if n.get('k') == 'assignop' and n.get('op') == 'BitOrAssign' and strip(n['l']).get('k') == 'field' \
+                and strip(n['l']).get('n') == 'new_combo' and strip(n['r']).get('k') == 'local':
+            flags.add(strip(n['r'])['name'])
+            applied += 1
+    H.walk(hfn['body'], v1)
+    if len(flags) != 1:
+        return False, 'no single flag is or-ed into `new_combo` (found %s)' % sorted(flags), None
+    flag = next(iter(flags))
+    if applied < 3:
+        return False, 'the flag is not applied to circles, sliders and spinners (%d of 3)' % applied, None
+    ALLOWED_FIELDS = {'end_time', 'start_time', 'breaks'}
+    ALLOWED_METHODS = {'len', 'get', 'split_first', 'first', 'is_some', 'is_none', 'is_empty', 'as_slice', 'iter', 'peek',
+                       'next', 'copied', 'cloned', 'is_some_and'}
+    problems = []
+
+    def guard_ok(c):
+        bad = []
+
+        def v(n, anc):
+            if n.get('k') == 'field' and n.get('n') not in ALLOWED_FIELDS and not n.get('n', '').isdigit():
+                bad.append('field `%s`' % n['n'])
+            if n.get('k') == 'mcall' and n.get('name') not in ALLOWED_METHODS:
+                bad.append('`.%s()`' % n['name'])
+            if n.get('k') == 'call' and n['f'].get('k') == 'path' and n['f'].get('dk', '').startswith(('Fn', 'AssocFn')) \
+                    and n['f'].get('name') not in ('Some', 'Ok'):
+                bad.append('`%s()`' % n['f'].get('name'))
+        H.walk(c, v)
+        return bad
+
+    def v2(n, anc):
+        is_set = None
+        if n.get('k') == 'assign' and strip(n['l']).get('k') == 'local' and strip(n['l'])['name'] == flag:
+            is_set = n['r']
+        elif n.get('k') == 'assignop' and strip(n['l']).get('k') == 'local' and strip(n['l'])['name'] == flag:
+            problems.append(('the flag is combined with another value (`%s`)' % n.get('op'), n.get('ln')))
+            return
+        elif n.get('k') in ('slet', 'let') and flag in H.pat_bindings(n['pat']) and 'init' in n:
+            is_set = n['init']
+        if is_set is None:
+            return
+        v = ctx.const_value(is_set)
+        if not isinstance(v, bool):
+            problems.append(('the flag is set to a computed value', n.get('ln')))
+            return
+        if v is True:
+            for a in anc:
+                if a.get('k') == 'if':
+                    bad = guard_ok(a['c'])
+                    if bad:
+                        problems.append(('only some of the passed breaks force a new combo (the guard uses %s)'
+                                         % ', '.join(sorted(set(bad))), a.get('ln')))
+                elif a.get('k') == 'match' and not a.get('src', '').startswith(('TryDesugar', 'ForLoop')):
+                    bad = guard_ok(a['scrut'])
+                    if bad:
+                        problems.append(('only some of the passed breaks force a new combo (the guard uses %s)'
+                                         % ', '.join(sorted(set(bad))), a.get('ln')))
+    H.walk(hfn['body'], v2)
+    if problems:
+        return False, problems[0][0], problems[0][1]
+    return True, '', None
+
+
+_break_forces_combo.positive = True
+row('C15', PPB, 'break-forces-new-combo', _break_forces_combo)
+row('C15', PPB, 'break-passed-test',
+    _contains(BIN('Lt', F(ANY(), 'end_time'), F(ANY(), 'start_time')),
+              'a break counts once it ended before the object starts'))
+
 # ------------------------------------------------------------------------------ C19
 row('C19', CURVE + 'progress_to_dist', 'clamp*dist',
     _ret(BIN('Mul', CLAMP(L('progress'), K(0.0), K(1.0)), C('dist', L('lengths')), commutative=True)))
-row('C19', CURVE + 'dist', 'last-or-zero',
-    _ret(M('unwrap_or', M('copied', M('last', L('lengths'))), K(0.0))))
+def _last_or_zero(ctx, hfn):
+    """total distance = the last cumulative length, 0 for an empty list (combinator or match form)"""
+    if _ret(M('unwrap_or', OR(M('copied', M('last', L('lengths'))), M('cloned', M('last', L('lengths')))), K(0.0)))(ctx, hfn)[0]:
+        return True, '', None
+    last = find(ctx, hfn['body'], M('last', L('lengths')))
+    lits = []
+    other = []
+
+    def visit(n, anc):
+        if n.get('k') == 'lit' and n.get('t') in ('float', 'int'):
+            lits.append(n.get('v'))
+        if n.get('k') in ('binary', 'index') or (n.get('k') == 'mcall' and n.get('name') in ('first', 'get', 'iter', 'len')):
+            other.append(n)
+    H.walk(hfn['body'], visit)
+    ok = len(last) == 1 and lits == [0.0] and not other
+    return ok, '' if ok else 'the total distance is not `the last cumulative length, or 0.0 if there is none`', None
+
+
+row('C19', CURVE + 'dist', 'last-or-zero', _last_or_zero)
+row('C19', CURVE + 'idx_of_dist', 'numeric-search',
+    _contains(M('partial_cmp', ANY(), L('d')), 'the segment is found by comparing cumulative lengths with the distance as numbers'))
+row('C19', CURVE + 'idx_of_dist', 'no-bit-pattern-comparison',
+    _not_contains(OR(M('to_bits', ANY()), M('total_cmp', ANY(), ANY())),
+                  'lengths are compared by bit pattern / total order: -0.0 and 0.0 (a progress of -0.0) no longer compare equal'))
 row('C19', CURVE + 'position_at', 'composition:dist', _let('d', C('progress_to_dist', L('lengths'), L('progress'))))
 row('C19', CURVE + 'position_at', 'composition:idx', _let('i', C('idx_of_dist', L('lengths'), L('d'))))
 row('C19', CURVE + 'position_at', 'composition:interpolate',
@@ -808,6 +957,7 @@ def _event_forms(kind):
             if pat is not None and not pmatch(ctx, pat, f['e']):
                 return False, ('the %s event\'s `%s` does not have its closed form %r' % (kind, f['n'], pat)), f.get('ln')
         return True, '', lits[0].get('ln')
+    chk.positive = True
     return chk
 
 
@@ -831,6 +981,7 @@ def _last_tick_mirror(ctx, hfn):
     return ok, '' if ok else 'the last tick progress is not mirrored exactly when the span count is even', ln
 
 
+_last_tick_mirror.positive = True
 row('C20', NXT, 'last-tick-mirrored-on-even-span-count', _last_tick_mirror)
 row('C20', GENT, 'reversed', _let('reversed', BIN('Eq', BIN('Rem', L('span'), K(2)), K(1))))
 row('C20', GENT, 'span_start_time', _let('span_start_time', SPAN_START(L('span'))))
